@@ -7,6 +7,7 @@ import (
 
 	_ "verif/checks"
 	"verif/internal/core"
+	"verif/internal/ktrace"
 )
 
 func main() {
@@ -64,6 +65,19 @@ func main() {
 			fmt.Printf("replay: VIOLATION property=%s sig=%q %s\n", doc.Property, v.Sig, v.Desc)
 		}
 		os.Exit(1)
+	case "trace":
+		// debug: vcheck trace <dir> <child argv...>
+		opts := ktrace.Options{Dir: os.Args[2], Argv: os.Args[3:], Stdout: os.Stdout, Stderr: os.Stderr}
+		if h := os.Getenv("VHOLD"); h != "" {
+			var hold ktrace.Hold
+			fmt.Sscanf(h, "%s %d %s", &hold.Class, &hold.N, &hold.Release)
+			opts.Hold = &hold
+		}
+		tr := ktrace.Run(opts)
+		for _, e := range tr.Events {
+			fmt.Printf("%3d %-7s tid=%d %-9s %-9s %s %s bytes=%d img=%d ret=%d %s\n", e.Seq, e.Kind, e.Tid, e.Nr, e.Class, e.Path, e.Path2, e.Bytes, e.Image, e.Ret, e.Marker)
+		}
+		fmt.Printf("stops=%d images=%d final=%d exit=%d signaled=%v hung=%v err=%v\n", tr.Stops, len(tr.Images), tr.FinalImage, tr.ExitCode, tr.Signaled, tr.Hung, tr.Err)
 	default:
 		usage()
 	}
